@@ -478,7 +478,10 @@ func refScan(w *fix.World, col []byte) []byte {
 // only if the hash matches what was revealed, otherwise delivered unchanged. Anything else is an
 // ordinary column.
 func refSearch(w *fix.World, col []byte) []byte {
-	if len(col) > 33 && col[0] == 0x7f && holdsEnvelope(w, col[33:]) {
+	// a searchable value is hash || envelope: the envelope (container, or a bare AcraStruct / AcraBlock) starts right
+	// behind the 33 bytes of the hash
+	startsWithTag := func(b []byte) bool { return bytes.HasPrefix(b, []byte("%%%")) || bytes.HasPrefix(b, []byte(`""""`)) }
+	if len(col) > 33 && col[0] == 0x7f && startsWithTag(col[33:]) && holdsEnvelope(w, col[33:]) {
 		rest := refScan(w, col[33:])
 		if bytes.Equal(rest, col[33:]) {
 			return col // nothing revealed
